@@ -8,6 +8,11 @@ pub const WIDE: &[&str] = &["é", "Ｈ", "😂", "\u{301}", "\u{200b}", "\u{a0}"
 /// characters the crate looks for ('-' 0x2D, SHY 0xAD, NBSP 0xA0, ' ' 0x20, LF, CR, ESC, '[', BEL):
 /// they separate code that inspects chars from code that inspects bytes
 pub const ALIAS: &[&str] = &["中", "キ", "😭", "Ġ", "ě", "Ċ", "č", "ś", "à", "丠", "ć", "中-", "-中", "中 "];
+/// sequences of code points that form ONE grapheme cluster / ligature (emoji + skin tone, ZWJ
+/// sequences, variation selectors, flags, Hangul jamo, lam-alef, conjuncts, keycaps, stacked
+/// marks): a width taken from a string-level routine differs from the sum of the characters'
+/// widths exactly on these
+pub const CLUSTERS: &[&str] = &["👍🏽", "👨\u{200d}🦰", "👩\u{200d}👩\u{200d}👧", "❤\u{fe0f}", "☺\u{fe0e}", "🇩🇪", "🇩🇪🇫", "ᄀ\u{1161}\u{11a8}", "لا", "ﻻ", "क्ष", "1\u{fe0f}\u{20e3}", "e\u{301}\u{302}", "א\u{200d}ל", "ꓡꓹ"];
 pub const LINES: &[&str] = &["\n", "\r", "\r\n", "\n\n", " \n", "\n "];
 pub const ANSI_OK: &[&str] = &["\x1b[0m", "\x1b[31m", "\x1b[1;32m", "\x1b]8;;http://x\x1b\\", "\x1b]8;;\x1b\\", "\x1b]0;t\x07", "\x1b[m"];
 pub const ANSI_BAD: &[&str] = &["\x1b", "\x1b[", "\x1b]", "\\", "\x07", "m", "@", "~", "0", ";", "[", "]", "\x1b ", "\x1b[1 q", "\x1b]0; \x07", "\x1b]8;;http://a-b\x1b\\", "\x1b\x1b"];
@@ -68,6 +73,12 @@ pub fn dict() -> &'static Dict {
                 continue;
             }
             let Ok(text) = std::fs::read_to_string(&f) else { continue };
+            // limits spelled as constants of the narrow integer types
+            for (name, v) in [("u8::MAX", 255usize), ("i8::MAX", 127), ("u16::MAX", 65_535), ("i16::MAX", 32_767), ("u8::BITS", 8), ("u32::BITS", 32), ("usize::BITS", 64), ("u64::BITS", 64)] {
+                if text.contains(name) && !numbers.contains(&v) {
+                    numbers.push(v);
+                }
+            }
             let b: Vec<char> = text.chars().collect();
             let mut i = 0;
             while i < b.len() {
@@ -112,8 +123,32 @@ pub fn dict() -> &'static Dict {
                                 add_c(ch, &mut chars);
                             }
                         }
-                        if (10..=1_000_000).contains(&n) && !numbers.contains(&(n as usize)) {
-                            numbers.push(n as usize);
+                        // `1 << 20`, `1usize << 12`: the value of the shift is the limit
+                        let mut k = j;
+                        while k < b.len() && b[k] == ' ' {
+                            k += 1;
+                        }
+                        let mut val = n;
+                        if k + 1 < b.len() && b[k] == '<' && b[k + 1] == '<' {
+                            let mut m = k + 2;
+                            while m < b.len() && b[m] == ' ' {
+                                m += 1;
+                            }
+                            let mut sh = String::new();
+                            while m < b.len() && b[m].is_ascii_digit() {
+                                sh.push(b[m]);
+                                m += 1;
+                            }
+                            if let Ok(shn) = sh.parse::<u32>() {
+                                if shn < 40 {
+                                    val = n << shn;
+                                }
+                            }
+                        }
+                        for v in [n, val] {
+                            if (10..=5_000_000).contains(&v) && !numbers.contains(&(v as usize)) {
+                                numbers.push(v as usize);
+                            }
                         }
                     }
                     i = j.max(i + 1);
@@ -241,11 +276,11 @@ fn token(rng: &mut Rng, fl: Flavor) -> &'static str {
     }
     match fl {
         Flavor::Plain => *rng.pick(PLAIN),
-        Flavor::Wide => if rng.chance(1, 5) { *rng.pick(ALIAS) } else if rng.chance(1, 2) { *rng.pick(WIDE) } else { *rng.pick(PLAIN) },
+        Flavor::Wide => if rng.chance(1, 5) { *rng.pick(ALIAS) } else if rng.chance(1, 8) { *rng.pick(CLUSTERS) } else if rng.chance(1, 2) { *rng.pick(WIDE) } else { *rng.pick(PLAIN) },
         Flavor::AnsiOk => if rng.chance(1, 3) { *rng.pick(ANSI_OK) } else if rng.chance(1, 4) { *rng.pick(WIDE) } else { *rng.pick(PLAIN) },
         Flavor::AnsiBad => if rng.chance(1, 2) { *rng.pick(ANSI_BAD) } else if rng.chance(1, 3) { *rng.pick(ANSI_OK) } else { *rng.pick(PLAIN) },
         Flavor::Mixed => match rng.below(6) {
-            0 => if rng.chance(1, 4) { *rng.pick(ALIAS) } else { *rng.pick(WIDE) },
+            0 => if rng.chance(1, 4) { *rng.pick(ALIAS) } else if rng.chance(1, 5) { *rng.pick(CLUSTERS) } else { *rng.pick(WIDE) },
             1 => *rng.pick(ANSI_OK),
             2 => *rng.pick(ANSI_BAD),
             3 => *rng.pick(LINES),
